@@ -8,7 +8,7 @@
    of the same type, Decl as primary expression, ...).  Printing can only fail to terminate through
    same-node dispatches; [acyclic_from] decides, by exhaustive search over the finite state space
    (visitor class x overload x category x guard flag), that no same-node cycle exists. *)
-From Coq Require Import List String Bool Arith ZArith Lia.
+From Coq Require Import List String Bool Arith ZArith NArith Lia.
 From IprV Require Import GenTypes Schema.
 Import ListNotations.
 Local Open Scope string_scope.
@@ -24,6 +24,14 @@ Inductive pr_action :=
 | PManip (name : string)                                       (* an iostream manipulator inserted into the stream *)
 | PAddress (what : string)                                     (* an address-dependent operation *)
 | POpaque (what : string).                                     (* something the translator could not read *)
+
+(* what one case of the literal-escaping switch writes *)
+Inductive lit_piece :=
+| LStr (bs : list N)          (* a string or character literal *)
+| LRaw                        (* the byte itself *)
+| LNum                        (* the byte's value as a number, in the stream's current base *)
+| LManip (name : string)      (* an iostream manipulator *)
+| LOther (what : string).     (* something the translator could not read *)
 
 Record pr_handler := { ph_class : string; ph_static : string; ph_actions : list pr_action; ph_net_indent : option (list Z) }.
 
@@ -70,6 +78,11 @@ Definition pstate_eqb (a b : pstate) : bool :=
 Definition has_action (p : pr_action -> bool) (h : pr_handler) : bool := existsb p (ph_actions h).
 Definition is_guard_reentry (a : pr_action) := match a with PGuardReentry => true | _ => false end.
 Definition is_guard_selfname (a : pr_action) := match a with PGuardSelfName => true | _ => false end.
+Definition is_mark_reentry (a : pr_action) := match a with PMarkReentry => true | _ => false end.
+(* the re-entry test protects only if the handler itself records the node before it dispatches:
+   `pp.parenthesizing = &e` must be an assignment in the handler's own body (a helper object that is
+   destroyed before the dispatch does not count) *)
+Definition guards_reentry (h : pr_handler) : bool := has_action is_guard_reentry h && has_action is_mark_reentry h.
 Definition is_opaque (a : pr_action) := match a with POpaque _ => true | _ => false end.
 
 Definition typeid_of (k : string) : string := "Type_id<" ++ k ++ ">".
@@ -85,9 +98,9 @@ Definition successors (s : pstate) : option (list pstate) :=
   | None => Some []                                         (* refused *)
   | Some h =>
     if has_action is_opaque h then None
-    else if has_action is_guard_reentry h && ps_mark s then Some []       (* the guard refuses the second visit *)
+    else if guards_reentry h && ps_mark s then Some []       (* the guard refuses the second visit *)
     else
-      let mark' := ps_mark s || has_action is_guard_reentry h in
+      let mark' := ps_mark s || guards_reentry h in
       let k := ps_cat s in
       Some (flat_map (fun a =>
         match a with
